@@ -300,10 +300,11 @@ def _density(w):
 
 
 @st.composite
-def strat_integrate(draw, tier):
+def strat_integrate(draw, tier, differentiable=False):
     table, info = draw(gen.tables(max_rows=3, with_choice=False))
     w = draw(st.sampled_from(['omega', 'OMEGA', 'eps', 'x_rnd', 'rv_1', 'rv_10']))
-    g = gen.TreeGen(draw, info, max_betas=3, max_nodes=8, logit=False, sharing=False, literals=False)
+    g = gen.TreeGen(draw, info, max_betas=3, max_nodes=8, logit=False, sharing=False, literals=False,
+                    differentiable=differentiable)
 
     def coef():
         return g.real(1)
